@@ -58,7 +58,7 @@ structure Prog (st : Send.Static) (fs0 : Fs.FS) (t0 : Nat) (D : List Pdu) (s : S
   mode : s.cfg.mode = .Acknowledged
   nak : CZ t0 s.timer.nak
   nc : s.recvState ≠ .Cancelled
-  act : s.recvState = .ReceiveData → s.state = .Active ∧ s.condition = .NoError ∧ s.fs = fs0
+  act : s.recvState = .ReceiveData → s.state ≠ .Terminated ∧ s.condition = .NoError ∧ s.fs = fs0
   data : s.recvState = .ReceiveData → ∀ p ∈ D, ∀ off d, p.payload = .fileData off d →
     ∀ x, off ≤ x → x < off + d.length → Seg.cov s.segs x
   mdat : s.recvState = .ReceiveData → (∃ p ∈ D, ∃ m, p.payload = .metadata m) → s.md.isSome = true
@@ -473,16 +473,60 @@ theorem prog_processPdu (h : Prog st fs0 t0 D s) (hl : Link st s) (hsrc : s.recv
 
 end Cfdp.Recv
 
+namespace Cfdp.Recv
+open Cfdp.Codec Cfdp.Gen Cfdp.Timer
+
+theorem nz_resume {s : State} {t0 : Nat} (h : CZ t0 s.timer.nak) : CZ t0 (resume s t0).timer.nak := by
+  simp only [resume]
+  repeat' split
+  all_goals nz_go []
+
+/-- a suspend request: the timers stop, nothing that was received is touched -/
+theorem prog_suspend {st : Send.Static} {fs0 : Fs.FS} {t0 : Nat} {D : List Pdu} {s : State}
+    (h : Prog st fs0 t0 D s) : Prog st fs0 t0 D (suspend s t0) := by
+  refine ⟨h.mode, cz_pause h.nak, h.nc, ?_, h.data, h.mdat, h.eof, h.dst, h.fin⟩
+  intro hr
+  obtain ⟨_, a2, a3⟩ := h.act hr
+  exact ⟨(by intro hh; cases hh), a2, a3⟩
+
+/-- a resume request: Active again, nothing that was received is touched -/
+theorem prog_resume {st : Send.Static} {fs0 : Fs.FS} {t0 : Nat} {D : List Pdu} {s : State}
+    (h : Prog st fs0 t0 D s) : Prog st fs0 t0 D (resume s t0) := by
+  refine ⟨by rw [cfg_resume]; exact h.mode, nz_resume h.nak, by rw [recvState_resume]; exact h.nc, ?_, ?_, ?_, ?_,
+    by rw [md_resume]; exact h.dst, ?_⟩
+  · intro hr
+    rw [recvState_resume] at hr
+    obtain ⟨_, a2, a3⟩ := h.act hr
+    refine ⟨?_, by rw [condition_resume]; exact a2, by rw [fs_resume]; exact a3⟩
+    have : (resume s t0).state = .Active := by simp only [resume, emit]
+    rw [this]; intro hh; cases hh
+  · intro hr
+    rw [recvState_resume] at hr
+    rw [segs_resume]; exact h.data hr
+  · intro hr
+    rw [recvState_resume] at hr
+    rw [md_resume]; exact h.mdat hr
+  · intro hr
+    rw [recvState_resume] at hr
+    rw [fileSize_resume]; exact h.eof hr
+  · intro hr
+    rw [recvState_resume] at hr
+    rw [condition_resume, delivery_resume, fileStatus_resume]; exact h.fin hr
+
+end Cfdp.Recv
+
 namespace Cfdp.Loop
 open Cfdp.Recv Cfdp.Codec Cfdp.Gen Cfdp.Timer
 
-/-- loop events without timer expiries and without user requests that stop or alter the transfer:
-PDUs of the sender, transmission opportunities, report requests, prompts -/
+/-- loop events without timer expiries and without user requests that end the transfer: PDUs of the
+sender, transmission opportunities, report requests, prompts - and suspend / resume requests -/
 def CalmEv (st : Send.Static) : Ev → Prop
   | .pdu p => FromSender st p
   | .send => True
   | .report => True
   | .prompt _ => True
+  | .suspend => True
+  | .resume => True
   | _ => False
 
 /-- the PDUs a history delivers, in order -/
@@ -518,8 +562,8 @@ theorem calm_recvStep {st : Send.Static} {fs0 : Fs.FS} {t0 : Nat} {D : List Pdu}
     have hnr : ({ s with sent := none, out := [] } : Recv.State).recvState ≠ .ReceiveData := by
       intro hr
       have := (p0.act hr).1
-      rw [this] at hterm
-      cases hterm
+      apply this
+      simpa using hterm
     exact prog_anyD p0 hnr
   · rename_i hterm
     have hs0 : ({ s with sent := none, out := [] } : Recv.State).recvState = .ReceiveData →
@@ -544,8 +588,12 @@ theorem calm_recvStep {st : Send.Static} {fs0 : Fs.FS} {t0 : Nat} {D : List Pdu}
       exact p0
     | timeout => exact absurd he id
     | cancel => exact absurd he id
-    | suspend => exact absurd he id
-    | resume => exact absurd he id
+    | suspend =>
+      simp only [pdusOf, List.append_nil]
+      exact Recv.prog_suspend p0
+    | resume =>
+      simp only [pdusOf, List.append_nil]
+      exact Recv.prog_resume p0
     | abandon => exact absurd he id
 
 theorem pdusOf_cons (x : Nat × Ev) (rest : List (Nat × Ev)) : pdusOf (x :: rest) = pdusOf [x] ++ pdusOf rest := by
@@ -610,7 +658,7 @@ theorem calm_done {st : Send.Static} {fs0 : Fs.FS} {t0 : Nat} {D : List Pdu} {r 
 
 theorem calm_new (st : Send.Static) (cfg : Recv.Config) (fs : Fs.FS) (t0 : Nat) (hm : cfg.mode = .Acknowledged)
     (hmax : 0 < cfg.max) (htn : 0 < cfg.tn) : Calm st fs t0 [] (Recv.new cfg fs t0) := by
-  refine ⟨⟨hm, ⟨rfl, hmax, ?_, rfl⟩, (by intro hh; cases hh), fun _ => ⟨rfl, rfl, rfl⟩, ?_, ?_, ?_, ?_, ?_⟩,
+  refine ⟨⟨hm, ⟨rfl, hmax, ?_, rfl⟩, (by intro hh; cases hh), fun _ => ⟨(by intro hh; cases hh), rfl, rfl⟩, ?_, ?_, ?_, ?_, ?_⟩,
     C01_init_good st.file cfg fs t0, ?_⟩
   · show 0 < cfg.tn * 1000000000
     omega
@@ -752,11 +800,3 @@ example : (recvRun (Recv.new c04Cfg [([], .dir)] 0)
 end Cfdp.Loop
 
 #print axioms Cfdp.Loop.C02_send_completes
-#print axioms Cfdp.Net.C02_two_party_no_integrity_fault
-#print axioms Cfdp.Loop.C02_no_integrity_fault
-#print axioms Cfdp.Recv.C02_size_check_passes
-#print axioms Cfdp.Seg.C02_round_completes
-#print axioms Cfdp.Seg.C02_gaps_answered
-#print axioms Cfdp.Recv.C02_finishes_when_complete
-#print axioms Cfdp.Recv.C02_never_waits_complete
-#print axioms Cfdp.Recv.C02_complete_is_success
